@@ -249,6 +249,9 @@ def run_check(prop, obligations, tier, level='model_checking', assumptions=None,
               trusted_base=None, extra_coverage=None, pre_violations=None):
     """Run all obligations, print verdict lines, write evidence, return exit status."""
     ensure_setup()
+    only = os.environ.get('VERIF_ONLY')
+    if only:
+        obligations = [o for o in obligations if o.name in only.split(',')]
     t_start = time.time()
     seed = int(os.environ.get('VERIF_SEED', '0'))
     kfs, fixed = load_known_findings(prop)
